@@ -172,7 +172,7 @@ static void run_case(const CaseDesc& c) {
   else if (c.kind == K_INC || c.kind == K_DEC) { if (vdim_before != d) expect_throw = true; }
   bool acc = (c.kind == K_INC || c.kind == K_DEC) && (int)vbefore.size() == n;
   for (int k = 0; k < n; k++) want[k] = (acc && c.kind == K_INC) ? vbefore[k] + tv[k] : ((acc && c.kind == K_DEC) ? vbefore[k] - tv[k] : tv[k]);
-  count("evaluations"); count(std::string("shape_cases:") + KINDNAME[c.kind]);
+  count("evaluations"); count("states"); count("transitions"); count("executions"); count(std::string("shape_cases:") + KINDNAME[c.kind]);
   { uint64_t h = ref::fnv(&c, sizeof c); distinct(h); }
   sample_every(g_idx++, 40009, cjson(c));
   std::string sig_shape = std::string(KINDNAME[c.kind]) + OPNAME[c.op] + ":" + (c.kind == K_CONSTRUCT ? "new" : TNAME[c.target]) + ":" + PNAME[c.alias];
